@@ -112,6 +112,8 @@ def _host_operator_table_call(mod, func, call, callee):
 
 
 def check_wrapper(chk):
+    from .. import raises as _raises
+    _raises.CM_REPO[0] = chk.repo          # with statements over the repository's own context managers are resolved (a guard class whose __exit__ may absorb counts as a handler)
     mod = chk.repo.module('runtime')
     n_fv = 0
     for fname, func in mod.funcs.items():
